@@ -3,9 +3,11 @@ package rmdrv
 import (
 	"encoding/json"
 	"fmt"
+	"github.com/containerd/nri/pkg/api"
 	"io"
 	"os"
 	"sync"
+	"sync/atomic"
 
 	balloons "github.com/containers/nri-plugins/cmd/plugins/balloons/policy"
 	topologyaware "github.com/containers/nri-plugins/cmd/plugins/topology-aware/policy"
@@ -16,6 +18,7 @@ import (
 	"github.com/containers/nri-plugins/pkg/kubernetes"
 	"github.com/containers/nri-plugins/pkg/log/klogcontrol"
 	"github.com/containers/nri-plugins/pkg/resmgr"
+	"github.com/containers/nri-plugins/pkg/resmgr/cache"
 	libmem "github.com/containers/nri-plugins/pkg/resmgr/lib/memory"
 	"github.com/containers/nri-plugins/pkg/resmgr/policy"
 	metav1 "k8s.io/apimachinery/pkg/apis/meta/v1"
@@ -74,6 +77,8 @@ type Inst struct {
 	StateDir string
 	Cfg      *Config // last accepted configuration (monitor's copy)
 	Agent    *agent.Agent
+	// counted by the push hook
+	Pushes, PushesOutsideLock atomic.Int64
 }
 
 var (
@@ -147,7 +152,17 @@ func NewInst(stateDir string, cfg *Config) (*Inst, error) {
 		rm.VerifShutdown()
 		return nil, fmt.Errorf("start: %w", err)
 	}
-	return &Inst{Policy: cfg.Policy, RM: rm, Backend: backend, StateDir: stateDir, Cfg: cfg.Clone(), Agent: agt}, nil
+	inst := &Inst{Policy: cfg.Policy, RM: rm, Backend: backend, StateDir: stateDir, Cfg: cfg.Clone(), Agent: agt}
+	// Hook on the unsolicited-update path: a push belongs to the request that produced it, so the pipeline lock must
+	// be held while it is sent (otherwise another request can be processed between deciding and telling the runtime).
+	rm.Stub.OnPush = func(u []*api.ContainerUpdate) {
+		inst.Pushes.Add(1)
+		if rm.TryLock() {
+			rm.Unlock()
+			inst.PushesOutsideLock.Add(1)
+		}
+	}
+	return inst, nil
 }
 
 func (i *Inst) Close() {
@@ -168,8 +183,9 @@ func (i *Inst) BlnSnap() *balloons.VerifSnap     { return balloons.VerifSnapshot
 
 // Hidden renders policy state that is not an assignment but steers later decisions.
 func (i *Inst) Hidden() string {
+	imp := fmt.Sprintf(" implicit-affinities=%v", cache.VerifImplicitAffinities(i.RM.Cache()))
 	if i.Policy == PolTA {
-		return topologyaware.VerifHidden(i.Backend)
+		return topologyaware.VerifHidden(i.Backend) + imp
 	}
-	return balloons.VerifHidden(i.Backend)
+	return balloons.VerifHidden(i.Backend) + imp
 }
